@@ -17,7 +17,7 @@ structure Ctl where
   runShut : CallId
   runClose : CallId
   cfgNoLimit : Bool
-  cfgSignals : Bool
+  cfgSignals : List Sig
   api : Bool
 
 def ctl (s : State) : Ctl :=
@@ -41,7 +41,7 @@ def runnerPast : RPC → Bool
 structure CtlInv (t : Ctl) : Prop where
   /-- a context is done for a reason its kind allows -/
   kindD : ∀ k, (t.shuts k).done = some .deadline → (t.shuts k).noLimit = false
-  kindC : ∀ k, (t.shuts k).done = some .cancel → (t.shuts k).cancellable = true
+  kindC : ∀ k, (t.shuts k).done = some .cancel → (t.shuts k).cancellable = true ∨ (t.shuts k).sigs ≠ []
   /-- the proxy is driven through `run` or through the API, not both -/
   apiRun : t.runner ≠ .idle → t.api = false
   /-- under `run`, the only call of `Shutdown` is run's -/
@@ -51,7 +51,8 @@ structure CtlInv (t : Ctl) : Prop where
       (t.runner = .inClose ∨ t.runner = .finished) ∧ j = t.runClose ∧ (t.shuts t.runShut).pc = .doneErr
   /-- the context `run` hands to `Shutdown` is the one `shutdownContext` builds from the configuration -/
   kind : runnerPast t.runner = true → (t.shuts t.runShut).pc ≠ .idle ∧
-      (t.shuts t.runShut).noLimit = t.cfgNoLimit ∧ (t.shuts t.runShut).cancellable = t.cfgSignals
+      (t.shuts t.runShut).noLimit = t.cfgNoLimit ∧ (t.shuts t.runShut).cancellable = false ∧
+      (t.shuts t.runShut).sigs = t.cfgSignals
   /-- `run` is in its call of `Close` only after `Shutdown` returned an error, and `Close` was really called -/
   inClose : t.runner = .inClose → (t.shuts t.runShut).pc = .doneErr ∧ t.closes t.runClose ≠ .idle
   /-- `run` returns after `Shutdown` returned nil, or — `Shutdown` having returned an error — after `Close` returned -/
@@ -60,13 +61,15 @@ structure CtlInv (t : Ctl) : Prop where
 
 def CtxInv (s : State) : Prop := CtlInv (ctl s)
 
-theorem ctxinv_initCfg (nl sg : Bool) : CtxInv (initCfg nl sg) := by
+theorem ctxinv_initCfg (nl : Bool) (sg : List Sig) : CtxInv (initCfg nl sg) := by
   constructor <;> simp [initCfg, ctl, runnerPast]
 
 /-- the context of call `k` becomes done (for a reason its kind allows), nothing else changes -/
 theorem ctlinv_ctx {t : Ctl} {k : CallId} {x : SCall} (hi : CtlInv t) (hpc : x.pc = (t.shuts k).pc)
     (hn : x.noLimit = (t.shuts k).noLimit) (hc : x.cancellable = (t.shuts k).cancellable)
-    (hdD : x.done = some .deadline → x.noLimit = false) (hdC : x.done = some .cancel → x.cancellable = true) :
+    (hsg : x.sigs = (t.shuts k).sigs)
+    (hdD : x.done = some .deadline → x.noLimit = false)
+    (hdC : x.done = some .cancel → x.cancellable = true ∨ x.sigs ≠ []) :
     CtlInv { t with shuts := fun j => if j = k then x else t.shuts j } := by
   have e1 : ∀ j, (if j = k then x else t.shuts j).pc = (t.shuts j).pc := by
     intro j; split
@@ -80,6 +83,10 @@ theorem ctlinv_ctx {t : Ctl} {k : CallId} {x : SCall} (hi : CtlInv t) (hpc : x.p
     intro j; split
     · rename_i h; rw [h, hc]
     · rfl
+  have e4 : ∀ j, (if j = k then x else t.shuts j).sigs = (t.shuts j).sigs := by
+    intro j; split
+    · rename_i h; rw [h, hsg]
+    · rfl
   obtain ⟨r1, r2, r3, r4, r5, r6, r7, r8⟩ := hi
   refine ⟨?_, ?_, r3, ?_, ?_, ?_, ?_, ?_⟩
   · intro j
@@ -88,7 +95,8 @@ theorem ctlinv_ctx {t : Ctl} {k : CallId} {x : SCall} (hi : CtlInv t) (hpc : x.p
     · simp only [if_pos hj]; exact hdD
     · simp only [if_neg hj]; exact r1 j
   · intro j
-    show (if j = k then x else t.shuts j).done = _ → (if j = k then x else t.shuts j).cancellable = true
+    show (if j = k then x else t.shuts j).done = _ → (if j = k then x else t.shuts j).cancellable = true ∨
+      (if j = k then x else t.shuts j).sigs ≠ []
     by_cases hj : j = k
     · simp only [if_pos hj]; exact hdC
     · simp only [if_neg hj]; exact r2 j
@@ -100,8 +108,9 @@ theorem ctlinv_ctx {t : Ctl} {k : CallId} {x : SCall} (hi : CtlInv t) (hpc : x.p
     rw [e1 t.runShut]; exact r5 ha j
   · show _ → (if t.runShut = k then x else t.shuts t.runShut).pc ≠ .idle ∧
       (if t.runShut = k then x else t.shuts t.runShut).noLimit = _ ∧
-      (if t.runShut = k then x else t.shuts t.runShut).cancellable = _
-    rw [e1 t.runShut, e2 t.runShut, e3 t.runShut]; exact r6
+      (if t.runShut = k then x else t.shuts t.runShut).cancellable = _ ∧
+      (if t.runShut = k then x else t.shuts t.runShut).sigs = _
+    rw [e1 t.runShut, e2 t.runShut, e3 t.runShut, e4 t.runShut]; exact r6
   · show _ → (if t.runShut = k then x else t.shuts t.runShut).pc = .doneErr ∧ _
     rw [e1 t.runShut]; exact r7
   · show _ → (if t.runShut = k then x else t.shuts t.runShut).pc = .doneNil ∨
@@ -135,7 +144,7 @@ theorem step_env_ctl {s s' : State} (a : Action) (h : step s a = some s') (ha : 
 theorem ctlinv_shutStep {t : Ctl} {k : CallId} {x : SCall} (hi : CtlInv t)
     (h0 : (t.shuts k).pc ≠ .idle) (h1 : (t.shuts k).pc ≠ .doneErr) (h2 : (t.shuts k).pc ≠ .doneNil)
     (hx0 : x.pc ≠ .idle) (hn : x.noLimit = (t.shuts k).noLimit) (hc : x.cancellable = (t.shuts k).cancellable)
-    (hd : x.done = (t.shuts k).done) :
+    (hsg : x.sigs = (t.shuts k).sigs) (hd : x.done = (t.shuts k).done) :
     CtlInv { t with shuts := fun j => if j = k then x else t.shuts j } := by
   obtain ⟨r1, r2, r3, r4, r5, r6, r7, r8⟩ := hi
   have hrs : t.runShut ≠ k → (if t.runShut = k then x else t.shuts t.runShut) = t.shuts t.runShut :=
@@ -147,9 +156,10 @@ theorem ctlinv_shutStep {t : Ctl} {k : CallId} {x : SCall} (hi : CtlInv t)
     · simp only [if_pos hj]; rw [hd, hn]; exact r1 k
     · simp only [if_neg hj]; exact r1 j
   · intro j
-    show (if j = k then x else t.shuts j).done = _ → (if j = k then x else t.shuts j).cancellable = true
+    show (if j = k then x else t.shuts j).done = _ → (if j = k then x else t.shuts j).cancellable = true ∨
+      (if j = k then x else t.shuts j).sigs ≠ []
     by_cases hj : j = k
-    · simp only [if_pos hj]; rw [hd, hc]; exact r2 k
+    · simp only [if_pos hj]; rw [hd, hc, hsg]; exact r2 k
     · simp only [if_neg hj]; exact r2 j
   · intro ha j
     show (if j = k then x else t.shuts j).pc ≠ .idle → _
@@ -162,13 +172,14 @@ theorem ctlinv_shutStep {t : Ctl} {k : CallId} {x : SCall} (hi : CtlInv t)
     show (if t.runShut = k then x else t.shuts t.runShut).pc = .doneErr
     rw [hrs (by intro h; rw [h] at a3; exact h1 a3)]; exact a3
   · intro hp
-    obtain ⟨a1, a2, a3⟩ := r6 hp
+    obtain ⟨a1, a2, a3, a4⟩ := r6 hp
     show (if t.runShut = k then x else t.shuts t.runShut).pc ≠ .idle ∧
       (if t.runShut = k then x else t.shuts t.runShut).noLimit = _ ∧
-      (if t.runShut = k then x else t.shuts t.runShut).cancellable = _
+      (if t.runShut = k then x else t.shuts t.runShut).cancellable = _ ∧
+      (if t.runShut = k then x else t.shuts t.runShut).sigs = _
     by_cases hr : t.runShut = k
-    · simp only [if_pos hr]; rw [hr] at a2 a3; exact ⟨hx0, hn.trans a2, hc.trans a3⟩
-    · simp only [if_neg hr]; exact ⟨a1, a2, a3⟩
+    · simp only [if_pos hr]; rw [hr] at a2 a3 a4; exact ⟨hx0, hn.trans a2, hc.trans a3, hsg.trans a4⟩
+    · simp only [if_neg hr]; exact ⟨a1, a2, a3, a4⟩
   · intro hr
     obtain ⟨a1, a2⟩ := r7 hr
     refine ⟨?_, a2⟩
@@ -209,7 +220,7 @@ theorem ctlinv_closeStep {t : Ctl} {k : CallId} {x : CPC} (hi : CtlInv t)
 /-- a call through the API (the proxy is not driven by `run`) -/
 theorem ctlinv_api {t : Ctl} {sh : CallId → SCall} {cl : CallId → CPC} (_hi : CtlInv t) (hr : t.runner = .idle)
     (hD : ∀ k, (sh k).done = some .deadline → (sh k).noLimit = false)
-    (hC : ∀ k, (sh k).done = some .cancel → (sh k).cancellable = true) :
+    (hC : ∀ k, (sh k).done = some .cancel → (sh k).cancellable = true ∨ (sh k).sigs ≠ []) :
     CtlInv { t with shuts := sh, closes := cl, api := true } := by
   refine ⟨hD, hC, ?_, ?_, ?_, ?_, ?_, ?_⟩
   · intro h; exact absurd hr h
@@ -260,7 +271,8 @@ theorem ctxinv_shutdownCall {s s' : State} (k : CallId) (nl cb : Bool) (hi : Ctx
       · simp only [if_pos hj]; intro h; cases h
       · simp only [if_neg hj]; exact hi.kindD j
     · intro j
-      show (if j = k then _ else s.shuts j).done = _ → (if j = k then _ else s.shuts j).cancellable = true
+      show (if j = k then _ else s.shuts j).done = _ → (if j = k then _ else s.shuts j).cancellable = true ∨
+        (if j = k then _ else s.shuts j).sigs ≠ []
       by_cases hj : j = k
       · simp only [if_pos hj]; intro h; cases h
       · simp only [if_neg hj]; exact hi.kindC j
@@ -279,7 +291,7 @@ theorem ctxinv_ctxExpire {s s' : State} (k : CallId) (hi : CtxInv s)
   simp only [step] at h
   split at h
   · rename_i hg; cases h
-    refine ctlinv_ctx (t := ctl s) (k := k) hi rfl rfl rfl ?_ ?_
+    refine ctlinv_ctx (t := ctl s) (k := k) hi rfl rfl rfl rfl ?_ ?_
     · intro _; exact hg.2
     · intro h0
       apply hi.kindC k
@@ -292,13 +304,29 @@ theorem ctxinv_ctxCancel {s s' : State} (k : CallId) (hi : CtxInv s)
   simp only [step] at h
   split at h
   · rename_i hg; cases h
-    refine ctlinv_ctx (t := ctl s) (k := k) hi rfl rfl rfl ?_ ?_
+    refine ctlinv_ctx (t := ctl s) (k := k) hi rfl rfl rfl rfl ?_ ?_
     · intro h0
       apply hi.kindD k
       show (s.shuts k).done = some .deadline
       revert h0; unfold ctxDone; cases (s.shuts k).done <;> simp
-    · intro _; exact hg.2
+    · intro _; exact Or.inl hg.2
   · simp at h
+
+theorem ctxinv_sig {s s' : State} (n : Sig) (k : CallId) (hi : CtxInv s)
+    (h : step s (.sig n k) = some s') : CtxInv s' := by
+  simp only [step] at h
+  split at h
+  · rename_i hg; cases h
+    refine ctlinv_ctx (t := ctl s) (k := k) hi rfl rfl rfl rfl ?_ ?_
+    · intro h0
+      apply hi.kindD k
+      show (s.shuts k).done = some .deadline
+      revert h0; unfold ctxDone; cases (s.shuts k).done <;> simp
+    · intro _
+      refine Or.inr ?_
+      show (s.shuts k).sigs ≠ []
+      intro he; rw [he] at hg; simp at hg
+  · cases h; exact hi
 
 theorem ctxinv_cancel {s s' : State} (hi : CtxInv s) (h : step s .cancel = some s') : CtxInv s' := by
   simp only [step] at h
@@ -324,7 +352,7 @@ theorem ctxinv_shut {s : State} {k : CallId} {pc : SPC} {sc : Bool} (hi : CtxInv
     (h0 : (s.shuts k).pc ≠ .idle) (h1 : (s.shuts k).pc ≠ .doneErr) (h2 : (s.shuts k).pc ≠ .doneNil)
     (hx0 : pc ≠ .idle) (l : Holder) (cl : Bool) :
     CtxInv { setShut s k { s.shuts k with pc := pc, sawClosing := sc } with lock := l, closing := cl } :=
-  ctlinv_shutStep (t := ctl s) (k := k) hi h0 h1 h2 hx0 rfl rfl rfl
+  ctlinv_shutStep (t := ctl s) (k := k) hi h0 h1 h2 hx0 rfl rfl rfl rfl
 
 theorem ctxinv_shutLock {s s' : State} (k : CallId) (hi : CtxInv s)
     (h : step s (.shutLock k) = some s') : CtxInv s' := by
@@ -436,7 +464,8 @@ theorem ctxinv_runShutdown {s s' : State} (k : CallId) (hi : CtxInv s)
       · simp only [if_pos hj]; intro h; cases h
       · simp only [if_neg hj]; exact hi.kindD j
     · intro j
-      show (if j = k then _ else s.shuts j).done = _ → (if j = k then _ else s.shuts j).cancellable = true
+      show (if j = k then _ else s.shuts j).done = _ → (if j = k then _ else s.shuts j).cancellable = true ∨
+        (if j = k then _ else s.shuts j).sigs ≠ []
       by_cases hj : j = k
       · simp only [if_pos hj]; intro h; cases h
       · simp only [if_neg hj]; exact hi.kindC j
@@ -448,7 +477,7 @@ theorem ctxinv_runShutdown {s s' : State} (k : CallId) (hi : CtxInv s)
     · intro _ j hj; exact absurd (hc j) hj
     · intro _
       show (if k = k then _ else s.shuts k).pc ≠ .idle ∧ (if k = k then _ else s.shuts k).noLimit = s.cfgNoLimit ∧
-        (if k = k then _ else s.shuts k).cancellable = s.cfgSignals
+        (if k = k then _ else s.shuts k).cancellable = false ∧ (if k = k then _ else s.shuts k).sigs = s.cfgSignals
       simp
     · intro h; cases h
     · intro h; cases h
@@ -516,6 +545,7 @@ theorem ctxinv_step {s s' : State} (a : Action) (hi : CtxInv s) (h : step s a = 
   | closeCall k => exact ctxinv_closeCall k hi h
   | ctxExpire k => exact ctxinv_ctxExpire k hi h
   | ctxCancel k => exact ctxinv_ctxCancel k hi h
+  | sig n k => exact ctxinv_sig n k hi h
   | cancel => exact ctxinv_cancel hi h
   | shutLock k => exact ctxinv_shutLock k hi h
   | shutCloseCh k => exact ctxinv_shutCloseCh k hi h
@@ -542,7 +572,7 @@ theorem ctxinv_reachable {s : State} (h : Reachable s) : CtxInv s := by
 
 /-- the call of `Shutdown` whose record an action changes -/
 def Action.shutOf : Action → Option CallId
-  | .shutdownCall k _ _ | .ctxExpire k | .ctxCancel k | .shutLock k | .shutCloseCh k | .shutPoll k
+  | .shutdownCall k _ _ | .ctxExpire k | .ctxCancel k | .sig _ k | .shutLock k | .shutCloseCh k | .shutPoll k
   | .shutTimer k | .shutCtx k | .shutUnlock k | .runShutdown k => some k
   | _ => none
 
@@ -614,6 +644,7 @@ theorem step_shut_waiting {s s' : State} (k : CallId) (a : Action) (h : step s a
 theorem step_ctx_fixed {s s' : State} (k : CallId) (a : Action) (h : step s a = some s')
     (hc : (s.shuts k).pc ≠ .idle) :
     (s'.shuts k).noLimit = (s.shuts k).noLimit ∧ (s'.shuts k).cancellable = (s.shuts k).cancellable ∧
+      (s'.shuts k).sigs = (s.shuts k).sigs ∧
       ∀ w, (s.shuts k).done = some w → (s'.shuts k).done = some w := by
   by_cases ho : a.shutOf = some k
   · cases a <;> simp only [Action.shutOf, Option.some.injEq, reduceCtorEq] at ho <;> subst ho <;>
@@ -623,9 +654,9 @@ theorem step_ctx_fixed {s s' : State} (k : CallId) (a : Action) (h : step s a = 
         | (simp only [Option.some.injEq] at h; subst h
            simp_all [setShut, ctxDone]; done)
         | (simp only [Option.some.injEq] at h; subst h
-           refine ⟨by simp [setShut, ctxDone], by simp [setShut, ctxDone], ?_⟩
+           refine ⟨by simp [setShut, ctxDone], by simp [setShut, ctxDone], by simp [setShut, ctxDone], ?_⟩
            intro w hw; simp [setShut, ctxDone, hw])
-  · rw [step_shuts_other a k h ho]; exact ⟨rfl, rfl, fun _ h => h⟩
+  · rw [step_shuts_other a k h ho]; exact ⟨rfl, rfl, rfl, fun _ h => h⟩
 
 /-- how call `k` of `Shutdown` comes to `return nil` / to `return ctx.Err()`: by its OWN poll finding the
     counter at 0, resp. by its own `select` finding its own context done — never by a step of anybody else -/
